@@ -30,6 +30,7 @@ import (
 	"github.com/onflow/cadence/ast"
 	"github.com/onflow/cadence/common"
 	"github.com/onflow/cadence/encoding/ccf"
+	"github.com/onflow/cadence/interpreter"
 	cjson "github.com/onflow/cadence/encoding/json"
 	oldlexer "github.com/onflow/cadence/old_parser/lexer"
 	"github.com/onflow/cadence/parser"
@@ -454,6 +455,18 @@ func (w *World) execTask(sh *Shared, p lib.C36Program, vm bool, args ...cadence.
 			if os.Getenv("C36_DEBUG") != "" {
 				fmt.Fprintf(os.Stderr, "exec %s vm=%v: %v\n", p.ID, vm, err)
 			}
+			// the message of a failed pre/post-condition is chosen by the program: it tells WHICH condition failed first
+			for e, i := err, 0; e != nil && i < 40; i++ {
+				if ce, ok := e.(*interpreter.ConditionError); ok {
+					res += "{" + ce.Message + "}"
+					break
+				}
+				u, ok := e.(interface{ Unwrap() error })
+				if !ok {
+					break
+				}
+				e = u.Unwrap()
+			}
 			var pe *crt.ParsingCheckingError
 			if asErr(err, &pe) {
 				res += "[" + errList(pe.Err) + "]"
@@ -677,6 +690,23 @@ func main() {
 					sum.Count("seq check rejected")
 				}
 				nontrivial[obs] = true
+			}
+		}
+		// repeated sequential execution on the warm shared caches: every program twice more, each observable must
+		// equal its FIRST sequential run (an execution that mutates shared checked programs shows up here even
+		// without any concurrency; two consecutive repeats so that a state that flips per execution cannot hide)
+		for rep := 0; rep < 2; rep++ {
+			for i := range w.programs {
+				for _, st := range []string{"exec", "execvm"} {
+					t := Task{st, i}
+					obs := w.runTask(sh, t)
+					sum.Evaluations++
+					sum.Count("seq repeat " + st)
+					if obs != ref[t.Key()] {
+						sum.Fail("seq-repeat-mismatch:"+st, fmt.Sprintf("task %s: repeated sequential run %d in the same process gave %q; the first sequential run gave %q",
+							t.Key(), rep+2, obs, ref[t.Key()]), map[string]any{"task": w.describe(t), "repeat": obs, "first": ref[t.Key()], "seed": *flagSeed})
+					}
+				}
 			}
 		}
 		for _, p := range w.programs {
